@@ -672,8 +672,21 @@ func (t *fnTrans) chanInvTerm(ci *ChanInv, v Term, et types.Type) Term {
 }
 
 // chanInvSend: a send into a channel with a `chaninv` must establish the invariant for the value sent.
+// chanInvFor: the channel invariant that applies to channel value ch: keyed by the field it was loaded
+// from, else by its element type (`chaninv chan[T]`).
+func (t *fnTrans) chanInvFor(ch ssa.Value) *ChanInv {
+	if ci := t.eng.contracts.ChanInvs[chanFieldKey(ch)]; ci != nil {
+		return ci
+	}
+	ct, ok := ch.Type().Underlying().(*types.Chan)
+	if !ok {
+		return nil
+	}
+	return t.eng.chanInvByElem(ct.Elem())
+}
+
 func (t *fnTrans) chanInvSend(ch ssa.Value, v Term, cond Term, pos token.Pos) {
-	ci := t.eng.contracts.ChanInvs[chanFieldKey(ch)]
+	ci := t.chanInvFor(ch)
 	if ci == nil {
 		return
 	}
@@ -689,7 +702,7 @@ func (t *fnTrans) chanInvSend(ch ssa.Value, v Term, cond Term, pos token.Pos) {
 // chanInvRecv: a value received from such a channel satisfies the invariant (the sweep obligation
 // sweep/chaninv[..] checks that every send is under contract and that the channel is never closed).
 func (t *fnTrans) chanInvRecv(ch ssa.Value, v Term, cond Term) {
-	ci := t.eng.contracts.ChanInvs[chanFieldKey(ch)]
+	ci := t.chanInvFor(ch)
 	if ci == nil {
 		return
 	}
